@@ -142,7 +142,7 @@ def isFloatTok : Tok → Bool
 /-- decorations of a case the model does not depend on (format, own shapes, repetition, Metrics
     bracket, laziness, boxed scalars, tuple coordinates …): reported so that starvation is visible -/
 def decoTags (j : Json) : List String :=
-  ["fmt", "fmtb", "fmts", "fmtsb", "shapeb", "bdflt", "reps", "metrics", "grow", "skind", "lazyb", "flat", "dbl"].filterMap
+  ["fmt", "fmtb", "fmts", "fmtsb", "shapeb", "bdflt", "dfltb", "reps", "metrics", "grow", "skind", "lazyb", "flat", "dbl"].filterMap
     (fun k => match j.getObjVal? k with
       | .ok Json.null => none
       | .ok _ => some ("deco:" ++ k)
@@ -357,6 +357,9 @@ def handleFiber (j : Json) : Except String Verdict := do
   | "add" | "mul" | "iadd" | "imul" =>
     let b ← fTree j "b" (d + 1)
     if !wfB (d + 1) b then return { agree := true, spec := true, tags := ["OUT_OF_MODEL"] }
+    -- the right operand may carry a default of its own (modelled for `+` only)
+    let dfltb := fIntD j "dfltb" dflt
+    if dfltb != dflt && op != "add" then return { agree := true, spec := true, tags := ["OUT_OF_MODEL"] }
     -- an in-place form applied twice: the second application starts from the model's first result
     let a : T (d + 1) := if (c11OptNat j "reps").getD 1 ≥ 2 then
         (match op with
@@ -365,16 +368,22 @@ def handleFiber (j : Json) : Except String Verdict := do
          | _ => a)
       else a
     let m : T (d + 1) := match op with
-      | "add" => addT dflt (d + 1) a b
+      | "add" => addT dflt dfltb (d + 1) a b
       | "mul" => mulT dflt (d + 1) a b
       | "iadd" => iaddT dflt (d + 1) a b
       | _ => imulT dflt d a b
-    let exp : Int → Int → Int := if op == "add" || op == "iadd" then addExpect dflt else mulExpect dflt
+    let exp : Int → Int → Int := if op == "add" || op == "iadd" then addExpect dflt dflt else mulExpect dflt
     let tags := [s!"fiber:{op}", dtag, s!"dflt{dflt}"] ++ fiberTags dflt d a b ++ actTags j ++ decoTags j
     match implOut with
     | some out =>
       let structEq := (treeToJson (d + 1) out).compress == (treeToJson (d + 1) m).compress
-      pure { agree := sameDenseB dflt (d + 1) m out, spec := pointwiseB dflt (d + 1) exp a b out,
+      let spec := if dfltb != dflt then
+          -- two defaults: each operand's dense view is taken with its own default
+          ((content dflt (d + 1) a ++ content dfltb (d + 1) b ++ content dflt (d + 1) out).map (·.1)).all
+            (fun p => denseAt dflt (d + 1) out p ==
+              addExpect dflt dfltb (denseAt dflt (d + 1) a p) (denseAt dfltb (d + 1) b p))
+        else pointwiseB dflt (d + 1) exp a b out
+      pure { agree := sameDenseB dflt (d + 1) m out, spec,
              model := treeToJson (d + 1) m, tags := tags ++ [if structEq then "struct-eq" else "struct-diff"] }
     | none =>
       pure { agree := false, spec := false, model := treeToJson (d + 1) m, tags,
